@@ -160,6 +160,14 @@ proof fn lemma_idx_inj(r: int, b: int, r2: int, b2: int, n: int)
         if r2 < r { assert(r * n >= (r2 + 1) * n) by (nonlinear_arith) requires r >= r2 + 1, n > 0; assert((r2 + 1) * n == r2 * n + n) by (nonlinear_arith); }
     }
 }
+proof fn lemma_cell_inj(r0: int, b0: int, nh: int, nb: int)
+  requires 0 <= r0 < nh, 0 <= b0 < nb
+  ensures forall|r: int, b: int| 0 <= r < nh && 0 <= b < nb ==> (#[trigger] cell(r, b, nb) == cell(r0, b0, nb) <==> (r == r0 && b == b0))
+{
+    assert forall|r: int, b: int| 0 <= r < nh && 0 <= b < nb implies (#[trigger] cell(r, b, nb) == cell(r0, b0, nb) <==> (r == r0 && b == b0)) by {
+        lemma_idx_inj(r, b, r0, b0, nb);
+    }
+}
 proof fn lemma_cell_bound(r: int, b: int, nh: int, nb: int)
   requires 0 <= r < nh, 0 <= b < nb
   ensures 0 <= cell(r, b, nb) < nh * nb, cell(r, b, nb) < (r + 1) * nb
@@ -296,14 +304,13 @@ lemma_cell_bound ( row as int , bucket as int , self . num_hashes as int , num_b
 }
 let index = row * num_buckets + bucket ;
 proof {
-assert ( cell ( row as int , bucket as int , self . num_buckets as int ) == index ) ;
+if cell ( row as int , bucket as int , self . num_buckets as int ) == index {
 assert ( fits ( old ( self ) . counts @ [ index as int ] , weight ) ) ;
+}
 }
 self . counts [ index ] = self . counts [ index ] . add ( weight ) ;
 proof {
-assert forall | r : int , b : int | 0 <= r < self . num_hashes && 0 <= b < self . num_buckets implies ( # [ trigger ] cell ( r , b , self . num_buckets as int ) == index <==> ( r == row && b == bucket ) ) by {
-lemma_idx_inj ( r , b , row as int , bucket as int , num_buckets as int ) ;
-}
+lemma_cell_inj ( row as int , bucket as int , self . num_hashes as int , num_buckets as int ) ;
 }
 vx_i1 += 1 ;
 }
@@ -322,7 +329,9 @@ lemma_push ( h , Ev :: Upd ( item_key ( item ) , weight . val ( ) ) ) ;
 let num_buckets = self . num_buckets as usize ;
 let mut min = T :: MAX ;
 let mut vx_i1 = 0 ;
-while vx_i1 < self . hash_seeds . len ( ) invariant self . wf ( ) , vx_i1 <= self . hash_seeds @ . len ( ) , num_buckets == self . num_buckets , forall | r : int | 0 <= r < vx_i1 ==> min . val ( ) <= # [ trigger ] self . row_val ( item_key ( item ) , r ) , forall | r : int | 0 <= r < vx_i1 ==> 0 <= # [ trigger ] bucket ( item_key ( item ) , self . hash_seeds @ [ r ] , self . num_buckets ) < self . num_buckets , vx_i1 == 0 ==> min == T :: MAX , vx_i1 > 0 ==> exists | r : int | 0 <= r < vx_i1 && min . val ( ) == # [ trigger ] self . row_val ( item_key ( item ) , r ) , decreases self . hash_seeds @ . len ( ) - vx_i1 {
+while vx_i1 < self . hash_seeds . len ( ) invariant self . wf ( ) , vx_i1 <= self . hash_seeds @ . len ( ) , num_buckets == self . num_buckets ,
+/*@C08.estimate_min*/ forall | r : int | 0 <= r < vx_i1 ==> min . val ( ) <= # [ trigger ] self . row_val ( item_key ( item ) , r ) , forall | r : int | 0 <= r < vx_i1 ==> 0 <= # [ trigger ] bucket ( item_key ( item ) , self . hash_seeds @ [ r ] , self . num_buckets ) < self . num_buckets , vx_i1 == 0 ==> min == T :: MAX ,
+/*@C08.estimate_min*/ vx_i1 > 0 ==> exists | r : int | 0 <= r < vx_i1 && min . val ( ) == # [ trigger ] self . row_val ( item_key ( item ) , r ) , decreases self . hash_seeds @ . len ( ) - vx_i1 {
 let row = vx_i1 ;
 let seed = & self . hash_seeds [ vx_i1 ] ;
 let bucket = self . bucket_index ( & item , * seed ) ;
@@ -332,8 +341,8 @@ lemma_cell_bound ( row as int , bucket as int , self . num_hashes as int , num_b
 let index = row * num_buckets + bucket ;
 let value = self . counts [ index ] ;
 proof {
-assert ( cell ( row as int , bucket as int , self . num_buckets as int ) == index ) ;
-assert ( value . val ( ) == self . row_val ( item_key ( item ) , row as int ) ) ;
+if cell ( row as int , bucket as int , self . num_buckets as int ) == index && value . val ( ) == self . row_val ( item_key ( item ) , row as int ) {
+}
 }
 if value < min {
 min = value ;
